@@ -140,6 +140,8 @@ REQUIRED = {'td_verify_returned'      : 1500,
             'func_direct_calls'       : 1500,
             'func_worker_dispatches'  : 1500,
             'func_child_decodes'      : 100,
+            'funcseq_payloads_checked': 1500,
+            'set:funcseq_kinds'       : 4,
             'serializer_roundtrips'   : 4000,
             'serializer_file_roundtrips': 100,
             'slot_steps_checked'      : 3000,
@@ -1255,6 +1257,127 @@ def decode_dispatch(enc):
     return out
 
 
+# ------------------------------------------------------------------------------
+# wrapper sequences: ONE `pythontask` wrapper used for several submissions (the
+# documented use: decorate once, call per task) while the state the function
+# captures changes between the encodings.  Every payload must decode to a call
+# which gives what f gave when the payload was made.
+#
+class Accum(object):
+
+    def __init__(self, k):
+        self.k     = k
+        self.items = list()
+
+    def total(self, x=0, **kw):
+        return ['total', self.k, list(self.items), x, sorted(kw.items())]
+
+
+def make_counter_closure(start):
+    cell = {'n': start, 'log': list()}
+
+    def bump(v):
+        cell['n'] += v
+        cell['log'].append(v)
+
+    def f(x=0, **kw):
+        return ['counter', cell['n'], list(cell['log']), x, sorted(kw.items())]
+    return f, bump
+
+
+def make_nonlocal_closure(start):
+    n = start
+
+    def bump(v):
+        nonlocal n
+        n = n + v
+
+    def f(x=0, **kw):
+        return ['nonlocal', n, x, sorted(kw.items())]
+    return f, bump
+
+
+SEQ_KINDS = ['method', 'counter', 'nonlocal', 'stateless']
+
+
+def gen_funcseq(rng):
+    steps = list()
+    for _ in range(rng.randint(2, 5)):
+        steps.append({'bump': rng.choice([0, 0, 1, 2, 5]),
+                      'x'   : rng.choice([0, 1, 'a', None, 2.5]),
+                      'kw'  : {k: rng.randint(0, 9)
+                               for k in rng.sample(_KW_POOL, rng.randint(0, 2))}})
+    return {'kind': 'funcseq', 'sk': rng.choice(SEQ_KINDS),
+            'start': rng.randint(0, 5), 'steps': steps,
+            'form': rng.choice(['decor', 'rp.pythontask']),
+            'decode': rng.choice(['each', 'end', 'end'])}
+
+
+def funcseq_nontrivial(case):
+    return case['sk'] != 'stateless' and \
+           any(st['bump'] for st in case['steps'][1:])
+
+
+def run_funcseq(case, res):
+
+    ctx = {'case': case}
+    sk  = case['sk']
+    if sk == 'method':
+        obj  = Accum(case['start'])
+        f    = obj.total
+        def bump(v):
+            obj.k += v
+            obj.items.append(v)
+    elif sk == 'counter':
+        f, bump = make_counter_closure(case['start'])
+    elif sk == 'nonlocal':
+        f, bump = make_nonlocal_closure(case['start'])
+    else:
+        f, bump = mf_flex, lambda v: None
+
+    deco = m_pytask.PythonTask.pythontask if case['form'] == 'decor' \
+           else rp.pythontask
+    try:
+        wrapper = deco(f)                      # once, as `@rp.pythontask` does
+    except Exception as e:
+        res.violation('func-encode-raised', 'pythontask(f) raised %r' % e, ctx)
+        return
+
+    res.see('funcseq_kinds', sk)
+    pending = list()
+    for i, st in enumerate(case['steps']):
+        if st['bump']:
+            bump(st['bump'])
+        args = [] if sk == 'stateless' and st['x'] is None else [st['x']]
+        exp  = f(*copy.deepcopy(args), **copy.deepcopy(st['kw']))
+        try:
+            enc = wrapper(*copy.deepcopy(args), **copy.deepcopy(st['kw']))
+        except Exception as e:
+            res.violation('func-encode-raised', 'encoding step %d raised %r'
+                          % (i, e), ctx)
+            return
+        pending.append((i, enc, exp))
+        if case['decode'] == 'each':
+            _judge_seq(res, ctx, pending.pop())
+    for item in pending:
+        _judge_seq(res, ctx, item)
+
+
+def _judge_seq(res, ctx, item):
+    i, enc, exp = item
+    d = decode_direct(enc)
+    res.count('funcseq_payloads_checked')
+    if d.get('decode_error') or d.get('call_error'):
+        res.violation('func-call-failed', 'payload %d of one wrapper: %s'
+                      % (i, d.get('decode_error') or d.get('call_error')),
+                      dict(ctx, step=i))
+    elif not _same(d.get('value'), exp):
+        res.violation('func-result-differs/wrapper-reused',
+                      'payload %d made by one pythontask wrapper decodes to a '
+                      'call giving %r; f gave %r when the payload was made'
+                      % (i, d.get('value'), exp), dict(ctx, step=i))
+
+
 def _clean(text):
     '''no memory addresses in messages (they go into replay file names)'''
     return re.sub(r'0x[0-9a-fA-F]+', '0x..', str(text))
@@ -1788,6 +1911,15 @@ def run(ctx):
                  fdir=ctx.workdir)
     run_child_batch(batch, res, ctx)
 
+    rng = ctx.rng('funcseq')
+    for _ in range(ctx.n(1500, 60000)):
+        case = gen_funcseq(rng)
+        res.evaluations += 1
+        if funcseq_nontrivial(case):
+            res.digests.add(digest(case))
+            sample(case)
+        run_funcseq(case, res)
+
     # -- slots ---------------------------------------------------------------------
     rng = ctx.rng('slots')
     for _ in range(ctx.n(10000, 320000)):
@@ -1813,6 +1945,7 @@ def replay(case, ctx):
     if   kind == 'td'   : run_td(c, res)
     elif kind == 'pd'   : run_pd(c, res)
     elif kind == 'slots': run_slots(c, res)
+    elif kind == 'funcseq': run_funcseq(c, res)
     elif kind == 'func' :
         batch = list()
         run_func(c, res, batch, fdir=ctx.workdir)
